@@ -753,6 +753,7 @@ struct It {
     frame: bool,            // TerminalAction::Wait (true) or WaitNoFrame
     pending: Option<usize>, // the answer of frames_pending(); None: the number of pending chunks
     keep: usize,            // chunks at the front of the queue that survive frames_drop()
+    resize: bool,           // the poll delivers a Resize event (same size, the terminal keeps its contents)
 }
 
 fn its_parse(v: &Value) -> Vec<It> {
@@ -765,6 +766,7 @@ fn its_parse(v: &Value) -> Vec<It> {
                     frame: o["frame"].as_bool().unwrap_or(true),
                     pending: o["pending"].as_u64().map(|x| x as usize),
                     keep: o["keep"].as_u64().unwrap_or(1) as usize,
+                    resize: o["resize"].as_bool().unwrap_or(false),
                 })
                 .collect()
         })
@@ -774,7 +776,13 @@ fn its_parse(v: &Value) -> Vec<It> {
 fn its_json(its: &[It]) -> Value {
     Value::Array(
         its.iter()
-            .map(|i| json!({"accept": i.accept, "cells": surf_json(&i.draw), "frame": i.frame, "pending": i.pending, "keep": i.keep}))
+            .map(|i| {
+                let mut j = json!({"accept": i.accept, "cells": surf_json(&i.draw), "frame": i.frame, "pending": i.pending, "keep": i.keep});
+                if i.resize {
+                    j["resize"] = json!(true);
+                }
+                j
+            })
             .collect(),
     )
 }
@@ -825,8 +833,9 @@ impl Terminal for LoopTerm {
         }
         let accept = self.its.get(self.idx).map(|i| i.accept).unwrap_or(0);
         self.npending -= accept.min(self.npending);
+        let resize = self.its.get(self.idx).map(|i| i.resize).unwrap_or(false);
         self.idx += 1;
-        Ok(None)
+        Ok(if resize { Some(TerminalEvent::Resize(self.size)) } else { None })
     }
     fn size(&self) -> Result<TerminalSize, Error> {
         Ok(self.size)
@@ -845,6 +854,11 @@ impl Terminal for LoopTerm {
     }
     fn frames_drop(&mut self) {
         let keep = self.its.get(self.idx.wrapping_sub(1)).map(|i| i.keep).unwrap_or(1);
+        // the queue is the pending chunks followed by the open one (what was written since the last
+        // flush); the first `keep` chunks survive (IOQueue::clear_but_last: chunks.drain(1..))
+        if keep <= self.npending {
+            self.cur.clear();
+        }
         self.npending = self.npending.min(keep);
         self.dropped = true;
     }
@@ -955,6 +969,9 @@ fn stale_session(its: &[It], out: &[(bool, Vec<(String, Value)>)]) -> bool {
             }
             last = None; // clear(): the back buffer is blank
         }
+        if it.resize {
+            last = None; // clear() and a new renderer
+        }
         if !cmds.is_empty() {
             q.push_back(cmds.iter().map(|(_, j)| j.clone()).collect());
         }
@@ -1015,12 +1032,13 @@ fn run_loop(p: &Pools, input: &Value, widths_of: impl Fn(&BTreeSet<u32>) -> Stri
     };
     let its_coq = clist(its.iter().map(|i| {
         format!(
-            "itr {} {} {} {} {}",
+            "itr {} {} {} {} {} {}",
             i.accept,
             surf_coq(&i.draw),
             cbool(i.frame),
             match i.pending { Some(n) => format!("(Some {})", n), None => "None".to_string() },
-            i.keep
+            i.keep,
+            cbool(i.resize)
         )
     }));
     let mut j = json!({"kind": "loop", "h": h, "w": w, "its": its_json(&its)});
@@ -1039,6 +1057,11 @@ fn run_loop(p: &Pools, input: &Value, widths_of: impl Fn(&BTreeSet<u32>) -> Stri
             format!("loop-iterations={}", match its.len() { 0..=5 => "1-5", 6..=12 => "6-12", 13..=33 => "13-33", _ => "34+" }),
             format!("loop-drops={}", match ndrops { 0 => "0", 1 => "1", _ => "2+" }),
             format!("loop-stale={}", stale),
+            format!("loop-resize={}", match (its.iter().any(|i| i.resize), observed.as_ref().map(|o| o.iter().zip(its.iter()).any(|((d, _), i)| *d && i.resize)).unwrap_or(false)) {
+                (_, true) => "with-drop",
+                (true, false) => "yes",
+                _ => "no",
+            }),
         ],
         nontrivial: ndrops > 0,
     }
@@ -1343,7 +1366,9 @@ fn gen_loop(rng: &mut Rng, p: &Pools) -> Value {
         } else if rng.chance(1, 2) { 0 } else { rng.below(4) as usize };
         let pending = if long || !rng.chance(1, 3) { None } else { Some(if rng.chance(3, 4) { 33 + rng.below(3) as usize } else { 32 }) };
         let keep = if long || rng.chance(1, 2) { 1 } else { rng.below(4) as usize };
-        its.push(It { accept, draw: s, frame, pending, keep });
+        // a Resize event now and then, more often when frames are being dropped
+        let resize = rng.chance(1, if pending.is_some() { 3 } else { 12 });
+        its.push(It { accept, draw: s, frame, pending, keep, resize });
     }
     json!({"kind": "loop", "h": h, "w": w, "its": its_json(&its)})
 }
